@@ -47,3 +47,16 @@ Definition known_class (c : case) : option N := None.
 
 Definition verdicts (l : list (N * case * xout)) : list (N * bool * bool * option N) :=
   map (fun '(i, c, o) => (i, out_eqb (run_case c) o, spec_ok c o, known_class c)) l.
+
+(* end-to-end engine (thorough tier): the bodies split off a unix-stream by their LE32 prefixes.  Every
+   body is within the limit and parses; its name is one of the expected (prefixed) user metric names or
+   an unprefixed internal telemetry name; its first tag is the global label; every name in [must]
+   occurs. *)
+Definition e2e_ok (mx : N) (allowed must : list bytes) (gl : label) (bodies : list bytes) : bool :=
+  forallb (fun b => (len b <=? mx) &&
+                    match parse_msg b with
+                    | Some m => (existsb (bytes_eqb (m_name m)) allowed || starts_with client_prefix (m_name m)) &&
+                                match m_tags m with t :: _ => label_eqb t gl | [] => false end
+                    | None => false
+                    end) bodies &&
+  forallb (fun n => existsb (fun b => match parse_msg b with Some m => bytes_eqb (m_name m) n | None => false end) bodies) must.
